@@ -21,5 +21,6 @@ INVARIANT ForcedIgnoresPersistentCache
 INVARIANT OverrideBeatsPersistentCache
 INVARIANT PersistentCacheOnlyReusesPositive
 INVARIANT FreshReadingIgnoresCache
+INVARIANT StaticIrrelevant
 CHECK_DEADLOCK FALSE
 POSTCONDITION EmitSpace
